@@ -128,7 +128,7 @@ def exotic_id_probe():
     """Explicit ids of kinds outside the model's label universe (whole-number floats, numpy scalars,
     bools): checked against the implementation only.  An id that equals an integer as a dict key must
     move the counter past that integer, whatever its Python type."""
-    import numpy as np, pandas as pd, xgi, tempfile, os
+    import numpy as np, pandas as pd, xgi, tempfile, os, copy as _copy, pickle as _pickle
     failures = []
     def fail(name, d):
         failures.append((f"{PROP}:exotic-id:{name}:{d.split(' ')[0]}", {"what": f"{name}: {d}", "provenance": "exotic-id:" + name}))
@@ -137,8 +137,8 @@ def exotic_id_probe():
     for cls_name in ("Hypergraph", "DiHypergraph", "SimplicialComplex"):
         for name, idx in ids:
             for how in ("single", "bulk"):
-                net = getattr(xgi, cls_name)()
-                try:
+                def build():
+                    net = getattr(xgi, cls_name)()
                     if cls_name == "DiHypergraph":
                         if how == "single":
                             net.add_edge(([901], [902]), idx=idx)
@@ -154,16 +154,24 @@ def exotic_id_probe():
                             net.add_edge([901, 902], idx=idx)
                         else:
                             net.add_edges_from([([901, 902], idx)])
+                    return net
+                try:
+                    if len(build().edges) == 0:
+                        continue      # e.g. a falsy id is ignored by add_simplex
                 except Exception:  # noqa: BLE001 - an id kind the library refuses is fine
                     continue
-                if len(net.edges) == 0:
-                    continue      # e.g. a falsy id is ignored by add_simplex
-                try:
-                    d = probe_additions(net, random.Random(3))
-                except Exception as e:  # noqa: BLE001
-                    d = f"addition raised {type(e).__name__}: {e}"
-                if d:
-                    fail(f"{cls_name} {how} explicit id {name}", d)
+                for via, dup in (("", lambda x: x), (" then pickle", lambda x: _pickle.loads(_pickle.dumps(x))),
+                                 (" then deepcopy", _copy.deepcopy), (" then copy.copy", _copy.copy),
+                                 (" then .copy()", lambda x: x.copy())):
+                    try:
+                        with warnings.catch_warnings():
+                            warnings.simplefilter("ignore")
+                            net2 = dup(build())
+                        d = probe_additions(net2, random.Random(3))
+                    except Exception as e:  # noqa: BLE001
+                        d = f"addition raised {type(e).__name__}: {e}"
+                    if d:
+                        fail(f"{cls_name} {how} explicit id {name}{via}", d)
     # converters / readers that produce such ids
     try:
         df = pd.DataFrame({"n": [1, 2, 3, 4], "e": [0.0, 0.0, 1.0, 1.0]})
